@@ -31,6 +31,17 @@ Three families of cases on the REAL FileStorage (DESIGN 4 C08):
               afterwards must load them (MVCCMappingStorage, MappingStorage, FileStorage; deterministic).
  (c') blobfault — OSError at every raw operation of a pack of a storage WITH blobs, then a pack to an
               earlier time that tags nothing: every blob record still in Data.fs keeps its file.
+ (g) close  — packer ∥ committer ∥ a thread closing the DB at a schedule-chosen moment; ORACLE-ONLY on the files
+              left behind (reopen holds every returned commit, index/log agree, commit + pack work); what the
+              threads answer after the close is counted, not judged.
+ Generalisation pass (all families): construction through the constructor or ZODB.config with pack_keep_old /
+ pack_gc true and false, HexStorage wrapper, blob layouts bushy / lawn, BlobStorage wrapper, DemoStorage and
+ MVCCMappingStorage packs, a second independent storage packed in the same process, storage-level commits of
+ the less-travelled kinds (restore with prev_txn, deleteObject, empty transaction, > 64 KiB records) and
+ a storage-level reader of every kind (load, loadBefore, loadSerial, getTid, history, iterator,
+ record_iternext, undoLog, loadBlob) while the pack runs, historical connections, hook yield points in
+ windows without lock or file operation (index lookup, unlocked _pos read, pool emptying), a second pack
+ after every reopened crash image, per-case watchdog.
  (c) fault  — inject an OSError at each raw mutating operation of a pack.  [P] pack raises (or the
               failure is harmless), the database is the unpacked or the packed one and usable: commit
               lock free, flag cleared (next pack not refused), loads work; `.pack` removed when the
@@ -529,9 +540,9 @@ def api_reader(fs, oids, init_recs, n, out):
                     out.append(('rev', 'record_iternext', oid, tid, data))
                     if nxt is None:
                         break
-            except POSKeyError:
+            except (POSKeyError, ValueError) as e:
                 # which object?  (the walk stands at `nxt`, or at the first oid)
-                out.append(('exc', 'record_iternext', 'POSKeyError', nxt))
+                out.append(('exc', 'record_iternext', type(e).__name__, nxt))
             except Exception as e:              # noqa: B902
                 out.append(('exc', 'record_iternext', type(e).__name__))
             try:
@@ -625,7 +636,7 @@ def verify_extras(obs, fs, T, init_recs, api_out, kdone, final_dump):
             # loadSerial of a revision at or before the pack time may be gone; everything else must work
             # (record_iternext raises POSKeyError at an object whose newest record is a deletion — with or
             #  without a pack; the storage-level committer deletes objects)
-            if o[1] == 'record_iternext' and o[2] == 'POSKeyError' and len(o) > 3 and o[3] is not None:
+            if o[1] == 'record_iternext' and o[2] in ('POSKeyError', 'ValueError') and len(o) > 3 and o[3] is not None:
                 # record_iternext reads the index and then loads without any lock: when the swap of a gc pack
                 # falls in between, it raises for an object the pack has just collected (unreachable garbage,
                 # outside C07's observables).  Counted, reported to the coordinator, not judged here.
@@ -1470,7 +1481,7 @@ def run_crash_scenario(ck, P, tier_thorough, only_cut=None):
     during = any(e[0] == 'mark' for e in evs[first_pack_write:first])
     for (k, nb) in cuts:
         vfs.materialize(R['init'], evs, k, nb, img)
-        D, problem = open_image(img, second_pack=(nb is None and (tier_thorough or k % 2 == 0)),
+        D, problem = open_image(img, second_pack=(nb is None and (tier_thorough or k % 3 == 0)),
                                 hexed=bool(P.get('hex')))
         verdict = crash_oracle(R, U, Pk, k, D, problem)
         nontriv = k > first_pack_write and during
@@ -2911,9 +2922,10 @@ def run_script_case(ck, case):
     import subprocess
     path = os.path.join(VERIF, 'corpus', 'C08', case['script'])
     for opt in case.get('opts', ([], ['-O'])):
-        p = subprocess.run([sys.executable] + opt + [path], capture_output=True, text=True, timeout=120,
+        p = subprocess.run([sys.executable] + opt + [path] + list(case.get('args', [])), capture_output=True,
+                           text=True, timeout=120,
                            cwd=ck.tmp)
-        ck.case(dict(kind='script', script=case['script'], opt=opt), True,
+        ck.case(dict(kind='script', script=case['script'], opt=opt, args=case.get('args')), True,
                 sample=dict(kind='script', script=case['script'], opt=opt, out=p.stdout.strip()[-200:]))
         ck.count('script:%s:%s' % (case['script'], 'ok' if p.returncode == 0 else 'failed'))
         if p.returncode != 0:
@@ -3014,7 +3026,7 @@ def main(argv=None):
         cases = [rp['case']]
     else:
         cases = load_corpus()
-        nsched = 250 if not ck.thorough else 5000
+        nsched = 200 if not ck.thorough else 5000
         ncrash = 8 if not ck.thorough else 100
         nfault = 4 if not ck.thorough else 24
         cases += [dict(kind='sched', P=gen_sched_params(ck.rng, i)) for i in range(nsched)]
@@ -3028,8 +3040,8 @@ def main(argv=None):
                   for ko in (True, False) for g in ((0, 1) if ck.thorough else (ko,))]
         cases += [dict(kind='prepack', P=dict(kind=kd, pre=pre, after=2, close_first=cf))
                   for kd in ('mvccmapping', 'mapping', 'file') for pre in (1, 3) for cf in (0, 1)]
-        cases += [dict(kind='close', P=gen_close_params(ck.rng, i)) for i in range(16 if not ck.thorough else 400)]
-        nmap = 60 if not ck.thorough else 1500
+        cases += [dict(kind='close', P=gen_close_params(ck.rng, i)) for i in range(12 if not ck.thorough else 400)]
+        nmap = 40 if not ck.thorough else 1500
         cases += [dict(kind='mapping', P=gen_mapping_params(ck.rng, i)) for i in range(nmap)]
         cases += [dict(kind='mapping', mode='callback', P=dict(ptime=pt, pre=pre, at=at))
                   for pt in ('mid', 'now') for pre in (1, 3) for at in (1, 2, 4)]
@@ -3065,6 +3077,12 @@ def main(argv=None):
                      'what a pack may drop at or before the pack time is C07\'s subject: PackProto keeps any '
                      'sublist of the transactions below packpos',
                      'readers read objects that stay reachable; snapshot semantics of values are C02\'s subject',
+                     'oracle-only (no Lean model): MappingStorage / DemoStorage / MVCCMappingStorage packs, blob '
+                     'directory races, BlobStorage wrapper, pack concurrent with close() (judged on the files left '
+                     'behind only), storage-level API reader and restore / deleteObject commits',
+                     'record_iternext raising POSKeyError / ValueError for an object the swap of a gc pack has just '
+                     'collected (lockless index read + load; unreachable garbage only) is counted in the histogram, '
+                     'not judged',
                      'swap via os.link + os.replace (repaired in /repo while this check was built); the two-rename fallback (no hard links) keeps the '
                      'between-renames window: Props.C08.pack_crash_between_renames_loses_data'])
 
